@@ -57,6 +57,17 @@ FAMILIES = {
     "nested_forall": lambda n: _prog(_nest(("forall (j%(i)d = 1:2)", "end forall"), n, "a(j1) = 1")),
     "repeat_statements": lambda n: _prog(["x%d = a + b * c" % i for i in range(4 * n)]),
     "repeat_loops": lambda n: _prog([s for i in range(n) for s in ("do i = 1, 2", "x = 1", "end do")]),
+    "repeat_nonblock_do": lambda n: _prog([s for i in range(2 * n) for s in ("do %d i = 1, 2" % (10 * (i + 1)), "%d x%d = i" % (10 * (i + 1), i))]),
+    "repeat_nonblock_do_with_body": lambda n: _prog([s for i in range(2 * n) for s in ("do %d i = 1, 2" % (10 * (i + 1)), "y = i", "%d x%d = i" % (10 * (i + 1), i))]),
+    "repeat_label_do_continue": lambda n: _prog([s for i in range(2 * n) for s in ("do %d i = 1, 2" % (10 * (i + 1)), "x = i", "%d continue" % (10 * (i + 1)))]),
+    "repeat_shared_label_do": lambda n: _prog([s for i in range(n) for s in ("do %d i = 1, 2" % (10 * (i + 1)), "do %d j = 1, 2" % (10 * (i + 1)), "x = i", "%d continue" % (10 * (i + 1)))]),
+    "repeat_if_constructs": lambda n: _prog([s for i in range(2 * n) for s in ("if (a%d) then" % i, "x = %d" % i, "else", "x = 0", "end if")]),
+    "repeat_select": lambda n: _prog([s for i in range(n) for s in ("select case (k%d)" % i, "case (1)", "x = 1", "case default", "x = 2", "end select")]),
+    "repeat_where_forall": lambda n: _prog([s for i in range(n) for s in ("where (m > %d)" % i, "a = 1", "end where", "forall (j = 1:2)", "a(j) = 1", "end forall")]),
+    "repeat_block_critical": lambda n: _prog([s for i in range(n) for s in ("block", "x = 1", "end block", "critical", "y = 1", "end critical")]),
+    "repeat_derived_types": lambda n: "module m\n" + "".join("type t%d\ninteger :: i\nend type t%d\n" % (i, i) for i in range(n)) + "end module m\n",
+    "repeat_interfaces": lambda n: "module m\n" + "".join("interface g%d\nmodule procedure p%d\nend interface g%d\n" % (i, i, i) for i in range(n)) + "end module m\n",
+    "nonblock_do_in_each_unit": lambda n: "".join("subroutine s%d\ndo 10 i = 1, 2\n10 x = i\nend subroutine s%d\n" % (i, i) for i in range(n)),
     "repeat_if_stmts": lambda n: _prog(["if (a > %d) x = %d" % (i, i) for i in range(2 * n)]),
     "repeat_units": lambda n: "".join("subroutine s%d\nx = 1\nend subroutine s%d\n" % (i, i) for i in range(n)),
     "repeat_contained": lambda n: "module m\ncontains\n" + "".join("subroutine s%d\nx = 1\nend subroutine s%d\n" % (i, i) for i in range(n)) + "end module m\n",
@@ -76,7 +87,7 @@ FAMILIES = {
     "nested_derived_type_params": lambda n: _prog(["type(t(" * 1 + ", ".join("k%d = %d" % (i, i) for i in range(n)) + ")) :: x"]),
     "io_implied_do_nest": lambda n: _prog(["write(6, *) " + "(" * n + "a(i)" + "".join(", i%d = 1, 2)" % i for i in range(n))]),
 }
-F08_FAMILIES = {"nested_block"}
+F08_FAMILIES = {"nested_block", "repeat_block_critical"}
 
 KINDS = {
     "if": ("if (a%(i)d) then", "end if"),
@@ -91,7 +102,30 @@ KINDS = {
 INNER = ["x = 1", "call sub(a, b)", "x = f(a) + (b * c)", "if (a) x = 1", "print *, 'a', x", "10001 continue"]
 
 
+SIB_KINDS = {
+    "nonblock_do": ["do %(l)d i = 1, 2", "%(l)d x%(i)d = i"],
+    "label_do": ["do %(l)d i = 1, 2", "x = i", "%(l)d continue"],
+    "shared_do": ["do %(l)d i = 1, 2", "do %(l)d j = 1, 2", "x = i", "%(l)d continue"],
+    "if": ["if (a%(i)d) then", "x = 1", "end if"],
+    "do": ["do i = 1, 2", "x = 1", "end do"],
+    "select": ["select case (k)", "case (%(i)d)", "x = 1", "end select"],
+    "stmt": ["x%(i)d = f(a) + b"],
+    "ifstmt": ["if (a > %(i)d) x = 1"],
+}
+
+
 def family_source(case, n):
+    if case["family"] == "generated_siblings":
+        lines = []
+        for i in range(n):
+            for k in case["recipe"]:
+                idx = len(lines)
+                for ln in SIB_KINDS[k]:
+                    lines.append(ln % {"i": i + 1, "l": 10 * (i + 1) + case["recipe"].index(k)})
+        if case.get("wrap"):
+            o, c = KINDS[case["wrap"]]
+            lines = [(o % {"i": 0, "l": 5}).split("\n")[0]] + (o % {"i": 0, "l": 5}).split("\n")[1:] + lines + [c % {"i": 0, "l": 5}]
+        return _prog(lines)
     if case["family"] != "generated":
         return FAMILIES[case["family"]](n)
     recipe, inner, sib = case["recipe"], case["inner"], case["siblings"]
@@ -118,12 +152,25 @@ def exhaustive(tier, flags):
     for fam in FAMILIES:
         if fam in ("nested_function_refs", "nonblock_do_distinct") and "no_exponential_families" in flags and False:
             continue
-        for n in sizes(tier):
-            yield {"family": fam, "n": n, "std": "f2008"}
+        for std in ("f2008", "f2003"):
+            if std == "f2003" and fam in F08_FAMILIES:
+                continue
+            for n in sizes(tier):
+                yield {"family": fam, "n": n, "std": std}
 
 
 def build(rnd, tier, flags):
     r = gen.R(rnd)
+    if r.chance(50):
+        ks = sorted(SIB_KINDS)
+        recipe = []
+        for _ in range(r.n(1, 3)):
+            k = r.pick(ks)
+            if k not in recipe:
+                recipe.append(k)
+        wrap = r.pick([None, None, "if", "do", "select", "block"])
+        return {"family": "generated_siblings", "recipe": recipe, "wrap": wrap,
+                "n": r.pick(sizes(tier)), "std": "f2008" if wrap == "block" else r.pick(["f2003", "f2008"])}
     recipe = [r.pick(["if", "do", "dolab", "select", "assoc", "block", "named_do"]) for _ in range(r.n(1, 4))]
     return {"family": "generated", "recipe": recipe, "inner": r.pick(INNER), "siblings": r.n(0, 2),
             "n": r.pick(sizes(tier)), "std": "f2008"}
@@ -163,13 +210,13 @@ def shard_extra():
 def evaluate(case):
     n = case["n"]
     fam = case["family"]
-    name = fam if fam != "generated" else "gen:" + "-".join(case["recipe"])
-    labels = ["family=" + (fam if fam != "generated" else "generated"), "n=%d" % n]
+    name = fam if not fam.startswith("generated") else ("gen:" if fam == "generated" else "sib:") + "-".join(case["recipe"])
+    labels = ["family=" + (fam if not fam.startswith("generated") else fam), "n=%d" % n, "std=" + case["std"]]
     s1, c1 = count(family_source(case, n), case["std"])
     s2, c2 = count(family_source(case, 2 * n), case["std"])
-    if fam != "generated":
-        _counts["%s n=%d" % (fam, n)] = c1
-        _counts["%s n=%d" % (fam, 2 * n)] = c2
+    if not fam.startswith("generated"):
+        _counts["%s %s n=%d" % (fam, case["std"], n)] = c1
+        _counts["%s %s n=%d" % (fam, case["std"], 2 * n)] = c2
     nontrivial = 2 * n >= 8
     if s1 in ("rejected", "exit") or s2 in ("rejected", "exit"):
         return Result(False, "family-rejected:%s" % name, nontrivial, labels, {"status": [s1, s2], "source": family_source(case, n)})
